@@ -324,3 +324,54 @@ Proof.
   { unfold gsl_ok. cbn. lia. } { cbn. lia. }
   rewrite Ht2. cbn [bind]. eauto.
 Qed.
+
+(* ------------------------------------------------------------------ run-time value kernels *)
+Lemma nkind_eqb_refl k : nkind_eqb k k = true.
+Proof. destruct k; reflexivity. Qed.
+
+Lemma modulo_op_no_panic k v2 : modulo_op true k k v2 <> Panic.
+Proof.
+  apply ok_not_panic. unfold modulo_op. cbn [negb andb].
+  destruct (is_int_kind k); [|eauto].
+  unfold assert_kind. rewrite nkind_eqb_refl. cbn [bind andb].
+  destruct (Z.eqb_spec v2 0); [eauto|].
+  unfold int_div. destruct (Z.eqb_spec v2 0); [contradiction|]. cbn [bind]. eauto.
+Qed.
+
+Lemma modulo_hoisted_refuted : exists k v2, modulo_op false k k v2 = Panic.
+Proof. exists KInt32, 0. reflexivity. Qed.
+
+Lemma divide_op_no_panic k v2 dz : divide_op k k v2 dz <> Panic.
+Proof.
+  apply ok_not_panic. unfold divide_op, assert_kind. rewrite nkind_eqb_refl.
+  destruct k; cbn [bind]; try (destruct (Z.eqb_spec v2 0); [eauto|]; unfold int_div;
+    destruct (Z.eqb_spec v2 0); [contradiction|]; cbn [bind]; eauto); try (destruct (_ && _); eauto); eauto.
+Qed.
+
+Lemma get_slice_no_panic a first last : get_slice a first last <> Panic.
+Proof.
+  apply ok_not_panic. unfold get_slice.
+  set (size := if aisbyte a then len (abytes a) else len (adata a)).
+  destruct (Z.ltb_spec first 0); cbn [orb]; [eauto|].
+  destruct (Z.ltb_spec last first); cbn [orb]; [eauto|].
+  destruct (Z.ltb_spec size first); cbn [orb]; [eauto|].
+  destruct (Z.ltb_spec size last); [eauto|].
+  subst size. destruct (aisbyte a).
+  - use_slice (abytes a) first last s Hs. pose proof (len_nonneg s). rewrite mk_ok by lia. cbn [bind]. eauto.
+  - use_slice (adata a) first last s Hs. eauto.
+Qed.
+
+Lemma get_slice_as_array_no_panic a first last : get_slice_as_array false a first last <> Panic.
+Proof.
+  unfold get_slice_as_array. destruct (aisbyte a) eqn:B.
+  - apply ok_not_panic.
+    destruct (Z.ltb_spec first 0); cbn [orb]; [eauto|].
+    destruct (Z.ltb_spec last first); cbn [orb]; [eauto|].
+    destruct (Z.ltb_spec (len (abytes a)) first); cbn [orb]; [eauto|].
+    destruct (Z.ltb_spec (len (abytes a)) last); [eauto|].
+    use_slice (abytes a) first last s Hs. eauto.
+  - destruct (_ || _); [discriminate|apply get_slice_no_panic].
+Qed.
+
+Lemma get_slice_as_array_merged_refuted : exists a first last, get_slice_as_array true a first last = Panic.
+Proof. exists {| aisbyte := true; abytes := [1;2;3;4;5;6;7]; adata := [] |}, 6, 2. reflexivity. Qed.
